@@ -234,6 +234,13 @@ Example replace_spec_example :
   op_replace [97; 97; 97; 98; 97; 97] [97; 97] [120] = [120; 97; 98; 120].
 Proof. exact replace_pieces_example. Qed.
 
+(* T4 replace, size: with n = number of replaced occurrences, |result| + n*|p| = |s| + n*|r| *)
+Theorem replace_length_law : forall s p r, p <> [] ->
+  (length (op_replace s p r) + (length (pieces p s) - 1) * length p =
+   length s + (length (pieces p s) - 1) * length r)%nat.
+Proof. exact replace_length. Qed.
+Print Assumptions replace_length_law.
+
 (* T4 replace with the empty pattern: the replacement goes before every character and after the last
    one (never inside a character), the result is valid text, and an empty replacement gives the string back *)
 Theorem replace_empty_pattern_spec : forall s r, valid_utf8 s ->
